@@ -46,6 +46,8 @@ pub struct GenCfg {
   pub over_report: bool,
   /// Bottom-up sessions may start with top-down requires and may contain a second bottom-up build.
   pub mixed_sessions: bool,
+  /// Programs whose tasks may fail still get bottom-up builds (only C20's no-spurious-abort oracle judges those).
+  pub bu_with_task_panics: bool,
 }
 
 impl GenCfg {
@@ -55,7 +57,7 @@ impl GenCfg {
       rchks: RCHKS.to_vec(), ochks: OCHKS.to_vec(), wchks: vec![RChk::Exact],
       faulty: false, multi_access: true, bottom_up: false, dyn_targets: true, written_to: true,
       bottom_up_weight: 3, wide: false, exact_share: 3, fault_steps: false, panic_steps: false, multi_checker_share: 0, multi_checker: false, task_panic_share: 0, panicky: false,
-      over_report: false, mixed_sessions: false,
+      over_report: false, mixed_sessions: false, bu_with_task_panics: false,
     }
   }
   pub fn thorough() -> Self {
@@ -487,7 +489,7 @@ pub fn build_history(g: &Genome, prog: &Program, cfg: &GenCfg) -> History {
     let mut rd = Rd::new(s);
     let mut kinds: Vec<u8> = vec![0, 0, 0, 1, 1, 1];
     if n_gen > 0 { kinds.push(2); }
-    if cfg.bottom_up && !prog.panicky && i > 0 { for _ in 0..cfg.bottom_up_weight { kinds.push(3); } }
+    if cfg.bottom_up && (!prog.panicky || cfg.bu_with_task_panics) && i > 0 { for _ in 0..cfg.bottom_up_weight { kinds.push(3); } }
     if cfg.fault_steps { kinds.extend([4, 4]); }
     if cfg.panic_steps && i > 0 { kinds.extend([5, 5, 5]); }
     let k = if i == 0 { 0 } else { kinds[rd.pick(kinds.len())] };
